@@ -387,3 +387,57 @@ Proof.
              long_empty u v u' L H K).
 Qed.
 End CapRun.
+
+(* ================= the file exclusion of res_clean is necessary; non-vacuity ================= *)
+From Coq Require Import String.
+Local Notation Bq := C02_Reach.B.
+
+(* stand-in oracle idna_long (IdnaOK2 holds, "x" is answered inside the class): Url::parse("file://x/C:/") succeeds with
+   the serialization file:///C:/ - the path parser drops the host in front of a drive letter - so the result has no host
+   text at all, while the run did call Host::parse on a host inside the class: the capped run stops with IdnaError *)
+Definition wq_input : list N := Bq "file://x/C:/".
+
+Theorem run_clean_file_refuted :
+  match parse_url true (host_parse idna_long) host_parse_opaque host_display None None wq_input with
+  | POk u => list_eqb (ser u) (Bq "file:///C:/") && hi_eqb (hosti u) HI_None && negb (known_c10_long (ht u))
+             && negb (res_clean u)
+  | _ => false
+  end = true
+  /\ parse_url true (host_parse (cap idna_long)) host_parse_opaque host_display None None wq_input = PErr IdnaError
+  /\ ~ run_clean true idna_long None None wq_input.
+Proof.
+  assert (parse_url true (host_parse (cap idna_long)) host_parse_opaque host_display None None wq_input = PErr IdnaError) as E2
+    by (vm_compute; reflexivity).
+  split; [vm_compute; reflexivity|]. split; [exact E2|].
+  unfold run_clean. rewrite E2. vm_compute. intros H. discriminate H.
+Qed.
+
+Theorem run_clean_needs_file_clause :
+  ~ (forall dbg idna, IdnaOK2 idna -> forall input u,
+       parse_url dbg (host_parse idna) host_parse_opaque host_display None None input = POk u ->
+       known_c10_long (ht u) = false -> run_clean dbg idna None None input).
+Proof.
+  intros H. destruct run_clean_file_refuted as (_ & _ & N). apply N.
+  destruct (parse_url true (host_parse idna_long) host_parse_opaque host_display None None wq_input) as [u| |] eqn:E;
+    try (vm_compute in E; discriminate E).
+  apply (H true idna_long idna_long_ok2 wq_input u E).
+  assert (match parse_url true (host_parse idna_long) host_parse_opaque host_display None None wq_input with
+          | POk v => known_c10_long (ht v) | _ => true end = false) as K by (vm_compute; reflexivity).
+  rewrite E in K. exact K.
+Qed.
+
+(* non-vacuity: results that pass res_clean (a special URL, a file URL with a host, a step of quirks set_host) *)
+Example res_clean_examples :
+  match parse_url true (host_parse idna_long) host_parse_opaque host_display None None (Bq "http://a.b:81/p") with
+  | POk u => res_clean u && list_eqb (ht u) (Bq "a.b")
+             && match C05_History.apply_op true (host_parse idna_long) host_parse_opaque host_display u (C05_History.OQHost (Bq "c.d:82")) with
+                | Some u' => list_eqb (ser u') (Bq "http://c.d:82/p") && negb (known_c10_long (ht u'))
+                | None => false
+                end
+  | _ => false
+  end = true
+  /\ match parse_url true (host_parse idna_long) host_parse_opaque host_display None None (Bq "file://a.b/p") with
+     | POk u => res_clean u | _ => false end = true
+  /\ match parse_url true (host_parse idna_long) host_parse_opaque host_display None None (Bq "http://x/") with
+     | POk u => res_clean u | _ => true end = false.
+Proof. vm_compute. repeat split; reflexivity. Qed.
